@@ -24,6 +24,17 @@ func (in *Interp) bufGet(p Value) *smt.Term {
 }
 func (in *Interp) bufAppend(p Value, s *smt.Term) {
 	in.Ghost["buf:"+ptrKey(p)] = smt.StrConcat(in.bufGet(p), s)
+	// slices handed out by Bytes() before a Reset share the buffer's memory: writing now clobbers them
+	if stale, _ := in.Ghost["bufstale:"+ptrKey(p)].([]*SliceV); len(stale) > 0 {
+		for _, v := range stale {
+			k := intGhost(in, "clobbered")
+			in.Ghost["clobbered"] = k + 1
+			nv := smt.NewVar(symName(fmt.Sprintf("clobbered.%d", k)), smt.KStr, 0)
+			v.SB.Buf.Str = nv
+			in.event("a slice returned by Buffer.Bytes() was overwritten through its reused buffer")
+		}
+		in.Ghost["bufstale:"+ptrKey(p)] = []*SliceV(nil)
+	}
 }
 
 // QEsc: url.QueryEscape. Exact for constants; for symbolic strings an SMT definition that is exact on the
@@ -100,6 +111,11 @@ func init() {
 		models[recv+".Grow"] = func(in *Interp, fn *ssa.Function, a []Value) Value { return nil }
 		models[recv+".Reset"] = func(in *Interp, fn *ssa.Function, a []Value) Value {
 			in.Ghost["buf:"+ptrKey(a[0])] = smt.StrLit("")
+			if views, _ := in.Ghost["bufviews:"+ptrKey(a[0])].([]*SliceV); len(views) > 0 {
+				stale, _ := in.Ghost["bufstale:"+ptrKey(a[0])].([]*SliceV)
+				in.Ghost["bufstale:"+ptrKey(a[0])] = append(stale, views...)
+				in.Ghost["bufviews:"+ptrKey(a[0])] = []*SliceV(nil)
+			}
 			return nil
 		}
 	}
@@ -437,16 +453,18 @@ func init() {
 				}
 				val, isStr := sv.F[fi].(*smt.Term)
 				if !isStr || val.K != smt.KStr {
-					// typed strings such as template.HTML bypass escaping
-					in.end("unmodelled", "template field %s is not a plain string (type %s) at %s", field, st.Field(fi).Type(), in.where())
+					in.end("unmodelled", "template field %s is not a string (type %s) at %s", field, st.Field(fi).Type(), in.where())
 				}
+				// typed strings (template.HTML, template.HTMLAttr, template.JS, ...) are trusted by html/template and NOT escaped
+				_, plain := st.Field(fi).Type().(*types.Basic)
+				trusted := !plain
 				segs = append(segs, tmplSeg{Lit: lit})
 				// context: inside a double-quoted attribute value?
 				inAttr := strings.Count(lit[strings.LastIndex(lit, "<")+1:], "\"")%2 == 1 && strings.LastIndex(lit, "<") > strings.LastIndex(lit, ">")
 				if !inAttr {
 					in.end("unmodelled", "template action {{.%s}} outside a double-quoted attribute value: escaping context not modelled at %s", field, in.where())
 				}
-				if pkg == "html/template" {
+				if pkg == "html/template" && !trusted {
 					segs = append(segs, tmplSeg{Val: val, Field: field, Esc: true})
 				} else {
 					segs = append(segs, tmplSeg{Val: val, Field: field, Esc: false})
@@ -502,6 +520,9 @@ func init() {
 		}
 		in.end("unmodelled", "vPostedDocumentSigned: not a base64 of a known serialisation: %s", t.S)
 		return nil
+	}
+	intrinsics["vContains"] = func(in *Interp, fn *ssa.Function, a []Value) Value {
+		return smt.StrContains(termArg(in, a[0]), termArg(in, a[1]))
 	}
 	intrinsics["vFormCount"] = func(in *Interp, fn *ssa.Function, a []Value) Value {
 		out := in.stringOfBytes(a[0].(*SliceV))
